@@ -48,7 +48,15 @@ Print Assumptions C02_local_safety_gives_the_inline_premise.
 
 Theorem C02_rendered_expression_is_separable_inline :
   forall (ftext : bool -> N -> str) Q (rq : Q -> script) is_alpha b T (e : expr Q) common,
-  spellings_lex b T -> (forall q, sc_ok ftext b true (rq q) = true) -> expr_plain ftext Q b true e = true ->
+  spellings_lex b T -> (forall q, sc_ok ftext b true (rq q) = true) -> expr_plain ftext Q b true (fun _ => true) e = true ->
   inline_sep ftext b (rexpr Q rq is_alpha b T common e) = true.
 Proof. exact rendered_expression_is_separable_inline. Qed.
 Print Assumptions C02_rendered_expression_is_separable_inline.
+
+(* ... and for EVERY rendered STATEMENT of the class query_plain (inline mode: the literals of its values lex). *)
+Require Import SQV.Model.Stmt SQV.Model.RenderStmt SQV.Proofs.StmtSafeProofs.
+Theorem C02_rendered_statement_is_separable_inline :
+  forall (ftext : bool -> N -> str) is_alpha b T fuel q, spellings_lex b T ->
+  query_plain ftext b true fuel q = true -> inline_sep ftext b (rquery is_alpha b T fuel q) = true.
+Proof. exact rendered_statement_is_separable_inline. Qed.
+Print Assumptions C02_rendered_statement_is_separable_inline.
